@@ -416,6 +416,18 @@ def gen_server_case(real, rng, cid, n_iter=50, n_clients=3, hostile=0.3, mtu=150
                     late.append((cl["addr"], None, "!3,%d,%d,%d,%d,1:%s:%s" % (ss, int(conn.bitfield_pkt.current_seqnum), conn.bitfield_pkt.bits,
                                                                             tq // 1024, pt.hex(), conn.session_key_bytes.hex())))
                     kick = kick or rng.random() < 0.6
+                if cl["phase"] == "up" and conn.status.value == 2 and conn.session_key_bytes and rng.random() < stack * 0.15:
+                    # a connected client sends CLIENT_HELLO messages under its session key (an attempt to re-key / be answered again),
+                    # in a fresh datagram behind its other traffic, and carries on
+                    hp = hello_payload(C, conn)
+                    if 36 + 2 * (5 + len(hp)) <= C.Packet.RECV_SIZE:
+                        ss, sm = (int(conn.seq_sending) % 65535) + 1, (int(conn.seq_message) % 65535) + 1
+                        sm2 = (sm % 65535) + 1
+                        emit("set %s ss=%d sm=%d" % (name, ss, sm2))
+                        body = b"".join(struct.pack(">HHB", len(hp), q, C.PacketType.CLIENT_HELLO.value) + hp for q in (sm, sm2))
+                        late.append((cl["addr"], None, "!%d,%d,%d,%d,%d,2:%s:%s" % (
+                            C.PacketType.CLIENT_HELLO.value, ss, int(conn.bitfield_pkt.current_seqnum), conn.bitfield_pkt.bits,
+                            tq // 1024, body.hex(), conn.session_key_bytes.hex())))
                 if cl["phase"] == "leaving":
                     cl["phase"] = "silent"
             # ---- hostile datagrams
